@@ -12,11 +12,13 @@ P_Lens == {3, 8, 20}
 \* brake build-up over 2 s on the flat
 X_Envs   == {<<0, 0>>, <<1, 0>>, <<-1, 0>>, <<0, 2>>}
 X_Forces == {2, 3, 5}                 \* always above the resistance: the train can start
+Y_Envs   == {<<0, 0>>, <<-1, 0>>, <<0, 2>>}
+Y_Forces == {2, 5}
 \* replayable environment (a negative resistance cannot be produced exactly on the real track)
 R_Envs   == {<<0, 0>>, <<1, 0>>, <<0, 2>>}
 R_Pols   == {<<2>>, <<3>>, <<5>>, <<2, 5>>, <<5, 2, 3>>}
 
 Finished == phase = "run" /\ ~Going
-Emit == Finished => PrintT(<<"REPLAY", ToJson([kind |-> "ctrl", zones |-> sp, end |-> end, r |-> env[1], ramp |-> env[2],
+Emit == (Finished /\ cs.k > 0) => PrintT(<<"REPLAY", ToJson([kind |-> "ctrl", zones |-> sp, end |-> end, r |-> env[1], ramp |-> env[2],
                                                 pol |-> pol, n |-> cs.k])>>)
 =============================================================================
